@@ -294,12 +294,53 @@ fn a2ml_trees(g: &Grammar) -> Vec<Tree> {
     out
 }
 
+/// cuts inside an IF_DATA payload: a nested block, the blocks of a repeated item, or the whole content moves to an
+/// include file (interpreted through A2ML and uninterpreted)
+fn ifdata_inner_trees(g: &Grammar) -> Vec<Tree> {
+    let mut out = Vec::new();
+    for (label, doc) in base_docs(g) {
+        if !label.starts_with("if-data") {
+            continue;
+        }
+        let flat = doc.text();
+        let pieces: [(&str, &str, usize); 6] = [
+            ("inner block R", "/begin R 3 /end R", 1),
+            ("block Q with nested block", "/begin Q 2 /begin R 3 /end R /end Q", 1),
+            // (a piece that starts with loose values and continues with a block is not a split at element boundaries:
+            //  values carry no origin, so the writer repeats them in front of the directive - out of scope, not judged)
+            ("whole content", "ZZ 1 /begin Q 2 /begin R 3 /end R /end Q", 1),
+            ("first repeated block", "/begin S 1 /end S", 1),
+            ("second repeated block", "/begin S 2 /end S", 1),
+            ("both repeated blocks", "/begin S 1 /end S /begin S 2 /end S", 1),
+        ];
+        for (pn, piece, includes) in pieces {
+            if flat.matches(piece).count() != 1 {
+                continue;
+            }
+            for (dir, quoted) in [("", true), ("ifd/", false), ("ifd/", true)] {
+                let inc = format!("{dir}part.a2l");
+                let main = flat.replacen(piece, &format!("\n{}\n", inc_directive(&inc, quoted)), 1);
+                out.push(Tree {
+                    label: format!("{label}: {pn} inside the IF_DATA payload -> {inc} ({})", if quoted { "quoted" } else { "bare" }),
+                    class: format!("inside-if-data:{}:{pn}", if label.contains("uninterpreted") { "uninterpreted" } else { "a2ml" }),
+                    files: vec![("main.a2l".into(), main), (inc, format!("{piece}\n"))],
+                    flattened: flat.clone(),
+                    includes,
+                    a2ml_include: false,
+                });
+            }
+        }
+    }
+    out
+}
+
 pub fn build(g: &Grammar, thorough: bool) -> Vec<Tree> {
     let mut out = Vec::new();
     for (label, doc) in base_docs(g) {
         out.extend(cuts(&label, &doc, thorough));
     }
     out.extend(a2ml_trees(g));
+    out.extend(ifdata_inner_trees(g));
     out
 }
 
